@@ -28,7 +28,8 @@ def _seeds(seed, k):
 
 def sched_jobs(tier, seed, gen=None, selections=False, faults=False, fault_rate=1.0, stress=True, dfs=True,
                dfs_faults=False, scale=1.0, dfs_gen=None, flavour="both"):
-    gen = gen or {}
+    gen = dict(gen or {})
+    gen.setdefault("tag_rate", 0.25)  # decorator-level tags (shared / spelled like another node's id) + configuration by tag
     jobs = []
     if tier == "quick":
         n_ctl, cases, n_dfs, dfs_shapes, dfs_limit, n_stress = 6, int(250 * scale), 4, 10, 200, 2
@@ -97,7 +98,12 @@ def c03(tier, seed):
                 **_seeds(seed + 95, k)) for k in range(2 if tier == "quick" else 8)]
         + [dict(kind="hist11", pid="C03", n_histories=(40 if tier == "quick" else 400),
                 only=["executed_set_differs_from_model", "ran_setup_node_the_selection_does_not_need", "setup_node_ran_more_than_once_on_one_instance"],
-                **_seeds(seed + 90, k)) for k in range(2 if tier == "quick" else 8)],
+                **_seeds(seed + 90, k)) for k in range(2 if tier == "quick" else 8)]
+        # "the function of every other node (unselected ...) is not entered at all", however the selection is spelled: ids of
+        # reused functions, tags (shared, substrings of each other, equal to another node's id), references, lists and tuples
+        + [dict(kind="sel", pid="C03", exhaustive_n=[], random_shapes=(40 if tier == "quick" else 300), nmin=4, nmax=8, triples_per_shape=30,
+                only=["executed_set_differs_from_documented_closure", "nodes_ran_although_selection_invalid",
+                      "node_ids_of_reused_functions_not_as_documented"], **_seeds(seed + 85, k)) for k in range(2 if tier == "quick" else 8)],
         level="exploration", rule=RULE_SCHED + RULE_W3 + "; plus generated programs with nested DAGs (depth 2), shared functions and flags where "
         "every call site (prefixed ids predicted by the monitor) must be entered exactly as often as in the reference run; plus histories of "
         "call / executor(sel) / setup() / setup(sel, incl. the empty list) / deepcopy on one instance where the executed set of every "
@@ -454,6 +460,6 @@ def c17(tier, seed):
         "triggers 20 stack samples of the loop thread: all inside tawazi => the scheduler blocks the loop (violation), otherwise "
         "inconclusive; distinct = distinct (program, number of awaits, liveness program)",
         assumptions=["liveness clause excludes AsyncDAGs containing thread-resource nodes (documented blocking; DESIGN 6.7)"],
-        required_reach=["c17_flavour_pairs", "c17_concurrent_awaits", "c17_liveness_handshakes", "c17_liveness_served", "c17_setup_result_comparisons"],
+        required_reach=["c17_flavour_pairs", "c17_concurrent_awaits", "c17_liveness_handshakes", "c17_liveness_served", "c17_setup_result_comparisons", "c17_capacity_cases"],
         parallel=8 if tier == "quick" else 16, timeout=1200,
     )
